@@ -2,11 +2,13 @@
 
 Leg M   : TLC enumerates a union of input universes of specs/Team (who defines a variable x which cars list which config
           bases x template trees / archive content x where the data paths are relative to the installation) and checks that the operational transcription of team.load_car /
-          ElasticsearchInstaller.variables / _apply_config / cleanup satisfies the declarative clauses of C13; eleven seeded
+          ElasticsearchInstaller.variables / _apply_config / cleanup satisfies the declarative clauses of C13; twelve seeded
           faults of the transcription must each violate them (self-test of the formulas).
 Leg S2C : TLC states (inputs) become REAL team directories (cars/v1/*.ini, <base>/config.ini, <base>/templates/** with
           Jinja templates and binary blobs) and a stub distribution tar.gz; the real team.load_car, ElasticsearchInstaller,
-          BareProvisioner.prepare and provisioner.cleanup run on them (harness/teamfs.py).
+          BareProvisioner.prepare (1-3 nodes of one host, one after the other from the ONE composed Car object, as
+          mechanic.create does), provisioner.docker(...).prepare on the same car (rendered config files, docker-compose.yml)
+          and provisioner.cleanup run on them (harness/teamfs.py).
 Leg C2S : every execution (S2C ones and seeded random, larger teams not derived from TLC) is projected to JSON (Car, variables
           handed to the templates, installation tree, directories after cleanup) and validated by TLC against TraceTeam.tla
           (L1 = clauses of C13, L2 = equality with the transcription).
@@ -17,6 +19,7 @@ import random
 import re
 import shutil
 import tempfile
+import time
 
 from .. import teamfs, tlc, tracecheck
 from ..core import Violation
@@ -24,8 +27,7 @@ from ..tlaparse import parse_state, to_json
 
 S, L = teamfs.S, teamfs.L
 
-SELFTEST_QUICK = ["overwrite", "internal_first", "prefix_skip", "leak_defaults"]
-SELFTEST_ALL = ["first_base_wins", "params_first", "nodedup", "earlier_car_wins", "base_over_car", "internal_first", "overwrite", "ignore_preserve", "keep_data", "prefix_skip", "leak_defaults"]
+SELFTEST_ALL = ["first_base_wins", "params_first", "nodedup", "earlier_car_wins", "base_over_car", "internal_first", "overwrite", "ignore_preserve", "keep_data", "prefix_skip", "leak_defaults", "docker_car_over_defaults"]
 
 
 # ---------------------------------------------------------------------------------------------------
@@ -104,8 +106,8 @@ def read_initial_states(path, keep):
 # ---------------------------------------------------------------------------------------------------
 # seeded random teams (not derived from TLC): more cars, repeated names, more variables, deeper trees
 # ---------------------------------------------------------------------------------------------------
-ORDINARY = ["heap_size", "x", "y", "additional_cluster_settings", "verbose"]
-INTERNAL = ["http_port", "transport_port", "node_name", "cluster_name", "network_host", "node_ip", "log_path", "heap_dump_path", "install_root_path", "all_node_ips", "all_node_names", "minimum_master_nodes", "cluster_settings"]
+ORDINARY = ["heap_size", "x", "y", "additional_cluster_settings", "verbose", "docker_cpu_count", "docker_mem_limit"]
+INTERNAL = ["http_port", "transport_port", "node_name", "cluster_name", "network_host", "node_ip", "log_path", "heap_dump_path", "install_root_path", "all_node_ips", "all_node_names", "minimum_master_nodes", "cluster_settings", "discovery_type"]
 PATHS = [
     ["config", "elasticsearch.yml"],
     ["config", "jvm.options"],
@@ -251,7 +253,7 @@ def _detail(it):
         it["out"]["paths"],
         it["out"]["dataPaths"],
         sorted(p for p, e in it["out"]["after"]["exists"].items() if e),
-        later,
+        later + (" docker=%s" % it["out"]["docker"]["err"]),
     )
 
 
@@ -260,7 +262,7 @@ def run(ctx, out):
         "case = (car list with each car's config bases and variables, config bases with variables and template trees, car params, "
         "archive content, preserve flag); distinct by hash of that description; non-trivial = the cars load (at least one config base) "
         "and at least one template file exists. Sources: states of the TLC state space of Team.tla (quick: deterministic 1/5 sample "
-        "by state hash; thorough: all), seeded random larger teams (C2S only)."
+        "by state hash; thorough: 2/3; inputs with special data path layouts or several nodes always), seeded random larger teams (C2S only)."
     )
     out.assumptions = [
         "file kinds follow the documented rule (extension in .ini .txt .json .yml .yaml .options .properties = text template, else binary); a path has the same kind in every config base",
@@ -281,7 +283,9 @@ def run(ctx, out):
         raise tlc.MachineryError("model violates %s (%s)" % (res.invariant_violated, res.out[-1500:]))
     out.note("leg M %s: %d distinct states in %.1fs" % (cfg, res.distinct, res.wall_s))
     caught = []
-    for variant in SELFTEST_QUICK if quick else SELFTEST_ALL:
+    # quick: two of the seeded faults (which ones depends on the seed only), thorough: all of them
+    n_all = len(SELFTEST_ALL)
+    for variant in [SELFTEST_ALL[(2 * ctx.seed + i) % n_all] for i in (n_all - 2, n_all - 1)] if quick else SELFTEST_ALL:
         wd2 = tlc.prepare_workdir("Team", "c13self")
         with open(os.path.join(wd2, "Team.selftest.cfg"), "r", encoding="utf-8") as f:
             txt = f.read().replace("@VARIANT@", variant)
@@ -294,17 +298,23 @@ def run(ctx, out):
         shutil.rmtree(wd2, ignore_errors=True)
     out.extra["model_selftest"] = "seeded faults of the transcription that violate PropertyHolds in the model, as expected: %s" % ", ".join(caught)
 
+    t_self = time.time()
     # ---- leg S2C
     dpath = dump + ".dump" if os.path.exists(dump + ".dump") else dump
-    k = 5 if quick else 1
-    total, states = read_initial_states(dpath, lambda h: int(h[:8], 16) % k == ctx.seed % k)
-    out.exhaustive = k == 1
+    # quick: 1/5 of the inputs, thorough: 2/3 (each execution now provisions up to 3 bare nodes and a Docker node), chosen by state hash
+    if quick:
+        keep = lambda h: int(h[:8], 16) % 5 == ctx.seed % 5
+    else:
+        keep = lambda h: int(h[:8], 16) % 3 != ctx.seed % 3
+    total, states = read_initial_states(dpath, keep)
+    out.exhaustive = False
     out.note("leg S2C: %d of %d TLC inputs selected" % (len(states), total))
     if not states:
         raise tlc.MachineryError("no TLC state selected for S2C")
     root = _case_root()
     adir = os.path.join(root, "archives")
     items = []
+    t_exec = time.time()
     try:
         for n, (h, inp) in enumerate(states):
             # universe N says how many nodes; every 4th other input is provisioned twice from its car as well
@@ -313,7 +323,7 @@ def run(ctx, out):
             items.append(it)
         # ---- seeded random teams
         rnd = random.Random(ctx.seed + 13)
-        for n in range(300 if quick else 6000):
+        for n in range(300 if quick else 4000):
             it = run_item(root, adir, "r%d" % n, random_inp(rnd), rnd.randrange(1 << 20), rnd.choice([1, 1, 1, 2, 2, 3]))
             items.append(it)
     finally:
@@ -347,11 +357,16 @@ def run(ctx, out):
         multi = len(it["inp"]["more"]) > 0 and not f["nobase"]
         f["multi"] = multi
         f["multi_default_dp"] = multi and not f["ext"]  # the later node has to get ITS OWN default data path
+        inp = it["inp"]
+        defined = set(inp["params"]) | {k2 for c in inp["cars"] for k2 in c["vars"]}
+        f["docker_collision"] = not f["nobase"] and bool(defined & set(inp["docker"]["vars"]))
+        f["docker_plain"] = not f["nobase"] and not (defined & set(inp["docker"]["vars"]))
     for it, f in zip(items, fs):
         out.add_case(_norm(it), nontrivial=not f["nobase"] and any(bd["tree"] for bd in it["inp"]["bases"].values()))
     n_err, n_dup, n_app, n_ext, n_pres, n_sib, n_multi, n_mdd = (sum(1 for f in fs if f[k2]) for k2 in ("nobase", "dup", "app", "ext", "pres", "sib", "multi", "multi_default_dp"))
-    out.extra["executions"] = {"total": len(items), "no_config_base": n_err, "config_base_mentioned_twice": n_dup, "file_appended_by_several_sources": n_app, "user_data_paths": n_ext, "data_path_sibling_named_after_es_home_wiped": n_sib, "preserve_install": n_pres, "several_nodes_from_one_car": n_multi, "several_nodes_default_data_paths": n_mdd}
-    for name, cnt in (("appended files", n_app), ("several nodes provisioned from one car", n_multi), ("several nodes from one car that defines no data_paths", n_mdd), ("data path that is a name-prefix sibling of the ES home (cleanup without preserve)", n_sib), ("duplicate base mentions", n_dup), ("external data paths", n_ext), ("preserve", n_pres), ("no-base errors", n_err)):
+    n_dcol, n_dplain = (sum(1 for f in fs if f[k2]) for k2 in ("docker_collision", "docker_plain"))
+    out.extra["executions"] = {"total": len(items), "no_config_base": n_err, "config_base_mentioned_twice": n_dup, "file_appended_by_several_sources": n_app, "user_data_paths": n_ext, "data_path_sibling_named_after_es_home_wiped": n_sib, "preserve_install": n_pres, "several_nodes_from_one_car": n_multi, "several_nodes_default_data_paths": n_mdd, "docker_car_collides_with_node_variable": n_dcol, "docker_no_collision": n_dplain}
+    for name, cnt in (("appended files", n_app), ("Docker provisioning of a car that defines a node variable name", n_dcol), ("Docker provisioning without name collision", n_dplain), ("several nodes provisioned from one car", n_multi), ("several nodes from one car that defines no data_paths", n_mdd), ("data path that is a name-prefix sibling of the ES home (cleanup without preserve)", n_sib), ("duplicate base mentions", n_dup), ("external data paths", n_ext), ("preserve", n_pres), ("no-base errors", n_err)):
         if cnt == 0:
             out.vacuous.append("no executed case with " + name)
     mid = items[len(items) // 2]
@@ -359,11 +374,13 @@ def run(ctx, out):
     last = next((it for it in reversed(items) if it["out"]["err"] == "none"), items[-1])
     out.sample({"random_team": {"cars": [(c["name"], c["bases"]) for c in last["inp"]["cars"]], "config_paths": last["out"]["paths"], "err": last["out"]["err"], "tree": [("/".join(e["path"]), [s["t"] for s in e["content"]]) for e in last["out"]["tree"]], "data_paths": last["out"]["dataPaths"], "preserve": last["inp"]["preserve"], "after_cleanup": last["out"]["after"]}})
 
+    t_val = time.time()
     # ---- leg C2S
     titems = [{"id": it["id"], "inp": it["inp"], "out": it["out"]} for it in items]
     index = {it["id"]: it for it in items}
     verdicts = tracecheck.validate("Team", "TraceTeam", "TraceTeam.cfg", titems, name="c13trace", chunk=1500, timeout=900)
     out.traces_validated += verdicts.accepted(len(titems))
+    out.note("timing (informative only): dump read %.1fs, %d executions %.1fs, trace validation %.1fs" % (t_exec - t_self, len(items), t_val - t_exec, time.time() - t_val))
     for tid, fails in sorted(verdicts.l1.items()):
         it = index[tid]
         clauses = sorted({c for _, cl in fails for c in cl})
